@@ -11,6 +11,10 @@ only = sys.argv[1:]
 for d in sorted(glob.glob(os.path.join(HERE, "seeded", "C*-*"))):
     sid = os.path.basename(d)
     if only and sid not in only:
+        # keep the row of a seed that is not re-run
+        mp = os.path.join(d, "meta.json")
+        if os.path.exists(mp):
+            rows.append(json.load(open(mp)))
         continue
     prop = sid.split("-")[0].rstrip("b")
     am = json.load(open(os.path.join(d, "agent_meta.json")))
